@@ -139,7 +139,7 @@ def _new_result(desc):
                       violations=[], notes=[], canary=None, assumptions=0, rlimit_spent=0)
 
 
-SOLVER_TIMEOUT_MS = int(os.environ.get('KV_SOLVER_TIMEOUT_MS', '120000'))
+SOLVER_TIMEOUT_MS = int(os.environ.get('KV_SOLVER_TIMEOUT_MS', '240000'))
 
 
 def mk_solver(rlimit):
